@@ -293,7 +293,7 @@ class Scheduler:
 
     DEFAULT_CAP = 3_000_000
 
-    def __init__(self, strategy, seed=0, forced=None, lark_root=None, probes=(), first=None):
+    def __init__(self, strategy, seed=0, forced=None, lark_root=None, probes=(), first=None, opcode_funcs=()):
         self.strategy = strategy
         self.kind = strategy.get('kind', 'random')
         self.rng = random.Random(seed)
@@ -304,6 +304,7 @@ class Scheduler:
                 self.forced[(t, s if isinstance(s, str) else int(s))] = n
         self.lark_root = lark_root
         self.probes = frozenset(probes)
+        self.opcode_funcs = frozenset(opcode_funcs)     # functions pre-empted at bytecode granularity (lazy initialisers)
         self.tasks = []
         self.by_thread = {}
         self.decisions = []
@@ -372,8 +373,10 @@ class Scheduler:
         probes = self.probes
         sched = self
 
+        opfuncs = self.opcode_funcs
+
         def local(frame, ev, arg):
-            if ev == 'line':
+            if ev == 'line' or ev == 'opcode':
                 task.steps += 1
                 task.op_steps += 1
                 sched.gsteps += 1
@@ -405,6 +408,8 @@ class Scheduler:
                             if o is not task and o.inside.get(q, 0) > 0:
                                 sched.overlaps[q] = sched.overlaps.get(q, 0) + 1
                                 break
+                if opfuncs and co.co_qualname in opfuncs:
+                    frame.f_trace_opcodes = True       # a race window inside one source line (e.g. `self._x = self._build()`) becomes reachable
                 return local
             return None
         return glob
